@@ -1,11 +1,16 @@
 """C04 — server-level property decided on event histories (see simcheck.py / simgen.py)."""
-import simcheck
+import simcheck, cligen
 
 
 def run(chk):
     chk.prove("Properties_C04")
     simcheck.run_sim(chk, flavour=FLAVOUR)
+    cligen.run(chk, flavour=FLAVOUR)
 
 
-replay = simcheck.replay
+def replay(body):
+    r = cligen.replay(body)
+    return simcheck.replay(body) if r is None else r
+
+
 FLAVOUR = "plain"
